@@ -92,16 +92,25 @@ def check(ctx):
     ctx.check(ok, "T3-cycle", cy, "cycle: flush -> size guard returns before any rename -> close -> renames -> truncate -> header",
               "a file is rotated only when it has reached the size threshold, and nothing is renamed or truncated before the data was flushed")
     lps = [n for n in cfg.nodes if n.kind == "for" and id(ren[0].ast) in {id(x) for x in ast.walk(n.ast)}]
-    ok = bool(lps) and src(lps[0].ast.iter).replace(" ", "") == "reversed(range(len(self.paths)-1))"
+    it = src(lps[0].ast.iter).replace(" ", "") if lps else ""
     body = src(lps[0].ast) if lps else ""
     c = [c for n, c in Y.calls("os.rename")][0]
-    ok = ok and [src(x) for x in c.args] == ["old", "new"] and "old = self.paths[k]" in body and "new = self.paths[k + 1]" in body
+    by_index = it == "reversed(range(len(self.paths)-1))" and [src(x) for x in c.args] == ["old", "new"] and \
+        "old = self.paths[k]" in body and "new = self.paths[k + 1]" in body
+    # or over the adjacent pairs (paths[k], paths[k+1]) taken from the end
+    by_pairs = it in ("reversed(list(zip(self.paths[:-1],self.paths[1:])))", "reversed(list(zip(self.paths,self.paths[1:])))") and \
+        bool(lps) and isinstance(lps[0].ast.target, ast.Tuple) and [src(x) for x in c.args] == [src(e) for e in lps[0].ast.target.elts]
+    ok = bool(lps) and (by_index or by_pairs)
     ctx.check(ok, "T3-cycle", lps[0].ast if lps else cy, "rename chain: for k descending: paths[k] -> paths[k+1]",
               "renaming in ascending order would overwrite the next older copy before it moved: retained records are lost")
     ft = Y.tests(lambda t: src(t) == "not cycled")
     re1 = [r for r in reo if ft and Y.dominated_by_edge([r], ft[0], "T")]
     ok = bool(ft) and bool(re1) and Y.dominated_by_edge(trn, ft[0], "F")
     ctx.check(ok, "T3-cycle", cy, "failed rename => reopen (append) and no truncation", "on a failed rotation the current file must be kept and appended to")
+    copies = [c for n, c in Y.calls(("shutil.copyfile", "shutil.copy", "shutil.copy2", "shutil.copyfileobj", "shutil.move"))]
+    ctx.check(not copies, "T3-cycle", cy, "rotation moves files with os.rename only (no copy-then-truncate)",
+              "copying the current file to the first rotate copy and truncating it afterwards leaves every record in both files "
+              "when the process dies (or the truncation fails) in between: retained records are duplicated")
     # the flag means "every rename succeeded": True before the chain, only ever cleared, and cleared in the handler of a failed rename
     fstores = Y.stores("cycled")
     inloop = [n for n in fstores if lps and id(n.ast) in {id(x) for x in ast.walk(lps[0].ast)}]
